@@ -17,7 +17,7 @@ THEOREMS = ['Fsic.C03.' + n for n in [
     'identical_duplicates_accepted', 'combine_error_class', 'symbol_order', 'names_partition', 'lags_leads_spec',
     'explicit_replace', 'min_only_raise', 'default_range_feasible', 'default_range_enumerated',
     'default_range_single', 'default_range_is_solve_range', 'default_range_is_accepted_periods']]
-RULE = ('SIZE programs (11 / 25 / 120 names in each of the four classes; up to 250 in the thorough tier; many equations, many terms, long names; the definition text of both templates is executed and its lists compared with the build_model class) and grammar programs (gen_scripts.gen_program, multi-equation, named periods mixed with integer offsets, LHS '
+RULE = ('40% of the scripts carry comments that mean nothing (trailing, separated from the code by spaces, a tab or nothing; comment-only and blank lines; comment texts that look like model code); SIZE programs (11 / 25 / 120 names in each of the four classes; up to 250 in the thorough tier; many equations, many terms, long names; the definition text of both templates is executed and its lists compared with the build_model class) and grammar programs (gen_scripts.gen_program, multi-equation, named periods mixed with integer offsets, LHS '
         'offsets) plus AST mutations {duplicate equation, second different equation for one name, name used with two '
         'kinds, variable first read with a lead and later assigned / read with a lag}, rendered under plain and '
         'spacing layouts, crossed with instance histories for the default range (fresh / copy of a used instance / used wider instance reindexed down / reindexed to a longer and to a shifted span / lags and leads changed between calls, over range, list, tuple, NumPy int/str, str-list and PeriodIndex spans, span lengths LAGS+LEADS+{0,1,2,3}) and with lags/leads in {None,0,1,3} x min_lags/min_leads in {default,0,1,3} (full '
@@ -104,7 +104,8 @@ def gen_case(rng):
     if rng.random() < 0.1:  # a second mutation on top (both defects at once, etc.)
         prog, tag2 = mutate(rng, prog, cfg, rng.choice(['dup', 'redef', 'kind']))
         tag += '+' + tag2
-    return {'prog': repr(prog), 'layout': rng.choice(LAYOUTS), 'labels': labels, 'tag': tag}
+    return {'prog': repr(prog), 'layout': rng.choice(LAYOUTS), 'labels': labels, 'tag': tag,
+            'comments': rng.randrange(1 << 30) if rng.random() < 0.4 else None}
 
 
 def program_of(case):
@@ -214,7 +215,7 @@ def oracle_history(case, o, kind, n, how, obs, rep, want_lags, want_leads):
 # ---- oracle: the property text restated over the generator's AST -------------------------------------------------
 
 def info_of(case, **extra):
-    return {k: case[k] for k in ('prog', 'layout', 'tag', 'labels', 'text')} | extra
+    return {k: case[k] for k in ('prog', 'layout', 'tag', 'labels', 'text')} | {'comments': case.get('comments')} | extra
 
 
 def oracle_parse(case, prog, real, rep):
@@ -289,10 +290,34 @@ def oracle_range(case, prog, o, n, got, want_lags, want_leads, rep):
 
 # ---- one program: real code, oracle, model --------------------------------------------------------------------
 
+COMMENT_SEPS = ['  ', ' ', '', '', '\t', '   ']
+COMMENT_BODIES = [' comment', ' + Qz[-9]', 'Wq + {gq}[7] * <eq>', ' Y = X', '', '#', ' K[4] in the paper', ' see `eq 3` (Qz[8])',
+                  'was: Vq[-7] * {hq}']
+
+
+def decorate(text, seed):
+    """Comments carry no meaning: trailing comments after a statement — separated from the code by spaces, a tab or
+    NOTHING — comment-only lines and blank lines between statements.  The comment texts look like model code (names,
+    braces, angle brackets, deep offsets) so that a comment that is not removed shows up in the classification."""
+    if seed is None:
+        return text
+    rng = random.Random(f'comments:{seed}')
+    out = []
+    for line in text.split('\n'):
+        if rng.random() < 0.25:
+            out.append(rng.choice(['', '# ' + rng.choice(COMMENT_BODIES).strip(), '   # indented comment Qz[-6]']))
+        if line.strip() and not line.startswith('`') and rng.random() < 0.6:
+            line = line + rng.choice(COMMENT_SEPS) + '#' + rng.choice(COMMENT_BODIES)
+        out.append(line)
+    return '\n'.join(out)
+
+
 def run_program(ctx, rep, case, options, batch):
     prog = program_of(case)
     layout = gs.catalogue_layout(case['layout'])
-    text = gs.render(prog, layout)
+    text = decorate(gs.render(prog, layout), case.get('comments'))
+    if case.get('comments') is not None:
+        rep.dist['comments:decorated'] += 1
     case['text'] = text
     real = pc.impl(pc.parse_model, text)
     real_j = {'ok': pc.syms_json(real['ok'])} if 'ok' in real else real
@@ -597,6 +622,7 @@ def replay(ctx, rep, case):
         print('  (correspondence-only case; nothing to replay against the property)')
         return
     c = {k: case[k] for k in ('prog', 'layout', 'tag')}
+    c['comments'] = case.get('comments')
     c['labels'] = case.get('labels') or [str(2000 + i) for i in range(6)]
     import copy
     ctx = copy.copy(ctx)   # the framework replays the corpus with the run's own ctx: do not switch T off for the run
